@@ -11,7 +11,7 @@ Vocabulary (Model/C27.lean, Proofs/C28Inv.lean):
 * `ofTable T` — block execution = `preExec`: PreExecBlock's checks in the order of the code;
 * `node T F m hi lo r g evs` — the node after ANY sequence `evs` of events on a node holding only
   the genesis block `g`: blocks handed to `ProcessBlock` (any header, any body, valid or not, any
-  order, from peers or the download path), transactions entering or leaving the mempool;
+  order, from peers or the download path), transaction instances admitted by / leaving the mempool;
 * `chainKeys T best` — the transaction hashes along the best chain.
 -/
 namespace C28
@@ -49,39 +49,17 @@ example :
     let s := node T 0 12 600 200 true g [.deliver b1 .peer, .deliver b2 .peer, .deliver b3 .peer]
     s.best.map (·.id) = [2, 1, 0] ∧ s.txIdx 1 = some 1 := by decide
 
-/-- **chain_tx_signed** — the statement at the strength of the property text: the mempool admits
-correctly signed transactions only, and then every transaction on the best chain is correctly
-signed.  It is FALSE of model and code (`chain_tx_signed_full_false`). -/
-def ChainTxSigned : Prop :=
-  ∀ (T : Table) (F m hi lo : Nat) (r : Bool) (g : Blk) (evs : List Ev), g.txs = [] →
-    (∀ h, Ev.poolAdd h ∈ evs → ∃ j, (T j).hash = h ∧ (T j).sigOk = true) →
-    ∀ b ∈ (node T F m hi lo r g evs).best, ∀ t ∈ b.txs, (T t).sigOk = true
-
-/-- S-C28: instance 0 (hash 7, correctly signed) enters the pool; a peer block carries instance 1
-— the same hash 7 (the hash covers neither signature nor public key) with an invalid signature.
-`PreExecBlock` skips verification for hashes the pool reports: the block becomes the tip.
-Replayed on the real code by corpus/C28/01-s-c28.ops. -/
-theorem chain_tx_signed_full_false : ¬ ChainTxSigned := by
-  intro h
-  let T : Table := fun i => { hash := 7, sigOk := i == 0, exp := .none, feeOk := true, chainOk := true }
-  let g : Blk := { id := 0, parent := 0, height := 0, diff := 1, time := 0, txs := [] }
-  let b1 : Blk := { id := 1, parent := 0, height := 1, diff := 1, time := 1, txs := [1] }
-  have h1 := h T 0 12 600 200 false g [.poolAdd 7, .deliver b1 .peer] rfl
-    (by
-      intro x hx
-      simp only [List.mem_cons, Ev.poolAdd.injEq, reduceCtorEq, List.not_mem_nil, or_false] at hx
-      exact ⟨0, hx.symm, rfl⟩)
-    b1 (by decide) 1 (by decide)
-  exact absurd h1 (by decide)
-
-/-- **chain_tx_signed_partial.**  Hypothesis added: no two transaction instances with the same
-`Hash()` differ in signature validity (`H`) — i.e. nobody presents a re-signed / key-substituted
-copy of a transaction.  Then, after ANY events whose pool insertions are correctly signed
-transactions, every transaction on the best chain is correctly signed. -/
-theorem chain_tx_signed_partial (T : Table)
-    (H : ∀ i j, (T i).hash = (T j).hash → (T i).sigOk = (T j).sigOk)
-    (F m hi lo : Nat) (r : Bool) (g : Blk) (hg : g.txs = []) (evs : List Ev)
-    (hpool : ∀ h, Ev.poolAdd h ∈ evs → ∃ j, (T j).hash = h ∧ (T j).sigOk = true) :
+/-- **chain_tx_signed** — FULL statement (since repo commit 28243c8, mirrored by `preExec`).
+Modelling assumption, stated as the hypothesis `hpool`: the mempool only ADMITS correctly signed
+transactions (`Ev.poolAdd t` events; mempool admission itself is C22's subject).  Then after ANY
+events — any peer blocks, including key-substituted / re-signed copies of pooled transactions, any
+order, reorganisations — every transaction on the best chain is correctly signed.
+The mempool's other way in, `delBlock` on EventDelBlock, re-inserts the transactions of a
+disconnected block WITHOUT verifying them; the proof covers it (invariant `SigInv`: the body the
+store holds under a best-chain hash is the connected one and was verified or vouched for by the
+very same pooled transaction), so no mis-signed transaction can reach the pool that way. -/
+theorem chain_tx_signed (T : Table) (F m hi lo : Nat) (r : Bool) (g : Blk) (hg : g.txs = [])
+    (evs : List Ev) (hpool : ∀ t, Ev.poolAdd t ∈ evs → (T t).sigOk = true) :
     ∀ b ∈ (node T F m hi lo r g evs).best, ∀ t ∈ b.txs, (T t).sigOk = true := by
   have h0 : QS (fun _ => True) (SigInv T) (init F m hi lo r g) := by
     refine ⟨⟨?_, ?_, ?_⟩, seen_init F m hi lo r g trivial⟩
@@ -93,26 +71,52 @@ theorem chain_tx_signed_partial (T : Table)
     · intro x hx u hu
       simp only [init, List.mem_singleton] at hx
       subst hx; rw [hg] at hu; cases hu
-  have h1 := (sig_pres T H).run evs _ (fun e he => by
+  have h1 := (sig_pres T).run evs _ (fun e he => by
     cases e with
     | deliver b s => trivial
     | poolAdd x => exact hpool x he
     | poolDel x => trivial) h0
   exact h1.1.2.2
 
-/-- Non-vacuity of `chain_tx_signed_partial`: with distinct hashes per instance the hypothesis
-holds, a mis-signed transaction is refused even while the pool holds other hashes. -/
+/-- Non-vacuity, and the S-C28 input on the repaired model: instance 0 (hash 7, correctly signed)
+is pooled; the peer block with instance 1 (same hash 7, invalid signature) is refused with ErrSign
+and the pool keeps instance 0; the block with instance 0 itself is accepted without verification
+and leaves the pool; after a reorganisation away from it (margin 1) instance 0 is back in the pool. -/
 example :
-    let T : Table := fun i => { hash := i, sigOk := i != 1, exp := .none, feeOk := true, chainOk := true }
+    let T : Table := fun i => { hash := if i ≤ 1 then 7 else i, sigOk := i != 1, exp := .none, feeOk := true, chainOk := true }
     let g : Blk := { id := 0, parent := 0, height := 0, diff := 1, time := 0, txs := [] }
     let b1 : Blk := { id := 1, parent := 0, height := 1, diff := 1, time := 1, txs := [1] }
-    let b2 : Blk := { id := 2, parent := 0, height := 1, diff := 1, time := 2, txs := [2] }
-    let s := node T 0 12 600 200 false g [.poolAdd 2, .deliver b1 .peer, .deliver b2 .peer]
-    (∀ i j, (T i).hash = (T j).hash → (T i).sigOk = (T j).sigOk) ∧
-    s.best.map (·.id) = [2, 0] ∧ s.pool = [] ∧ s.errLog 1 = some .sign := by
-  refine ⟨fun i j h => ?_, by decide⟩
-  have : i = j := h
-  rw [this]
+    let b2 : Blk := { id := 2, parent := 0, height := 1, diff := 1, time := 2, txs := [0] }
+    let b3 : Blk := { id := 3, parent := 0, height := 1, diff := 9, time := 3, txs := [5] }
+    let b4 : Blk := { id := 4, parent := 3, height := 2, diff := 1, time := 4, txs := [1] }
+    let s := node T 0 1 600 200 false g [.poolAdd 0, .deliver b1 .peer, .deliver b2 .peer]
+    let s' := node T 0 1 600 200 false g [.poolAdd 0, .deliver b1 .peer, .deliver b2 .peer, .deliver b3 .peer, .deliver b4 .peer]
+    s.errLog 1 = some .sign ∧ s.best.map (·.id) = [2, 0] ∧ s.pool = [] ∧
+    s'.best.map (·.id) = [3, 0] ∧ s'.pool = [0] ∧ s'.errLog 4 = some .sign := by decide
+
+/-- the signature clause over the OLD `PreExecBlock` (before repo commit 28243c8: exemption by
+`Hash()` alone, `preExecOld`). -/
+def ChainTxSignedOld : Prop :=
+  ∀ (T : Table) (F m hi lo : Nat) (r : Bool) (g : Blk) (evs : List Ev), g.txs = [] →
+    (∀ t, Ev.poolAdd t ∈ evs → (T t).sigOk = true) →
+    ∀ b ∈ (run (ofTableOld T) (init F m hi lo r g) evs).best, ∀ t ∈ b.txs, (T t).sigOk = true
+
+/-- **regression witness S-C28**: with the old exemption rule the statement is false — instance 0
+(hash 7, correctly signed) is pooled; a peer block carries instance 1, the same hash 7 with an
+invalid signature; verification is skipped and the block becomes the tip.  (Replayed on the real
+code by corpus/C28/01-s-c28.ops: before 28243c8 `main` and the victim debited, now ErrSign.) -/
+theorem chain_tx_signed_regression_old_preExec : ¬ ChainTxSignedOld := by
+  intro h
+  let T : Table := fun i => { hash := 7, sigOk := i == 0, exp := .none, feeOk := true, chainOk := true }
+  let g : Blk := { id := 0, parent := 0, height := 0, diff := 1, time := 0, txs := [] }
+  let b1 : Blk := { id := 1, parent := 0, height := 1, diff := 1, time := 1, txs := [1] }
+  have h1 := h T 0 12 600 200 false g [.poolAdd 0, .deliver b1 .peer] rfl
+    (by
+      intro x hx
+      simp only [List.mem_cons, Ev.poolAdd.injEq, reduceCtorEq, List.not_mem_nil, or_false] at hx
+      subst hx; rfl)
+    b1 (by decide) 1 (by decide)
+  exact absurd h1 (by decide)
 
 /-- **chain_tx_unique** — the statement at the strength of the property text (any delivered
 blocks, TxHeight transactions included): no transaction hash occurs twice on the best chain.
